@@ -224,6 +224,8 @@ class FlowFields(ImageBatch):
         if axes is None:
             return self._axes
         data = self.tensor()
+        if data.shape[0] == 0:
+            return self._make_instance(data, self._grid, axes)
         data = move_dim(data, 1, -1)
         data = tuple(
             grid.transform_vectors(data[i : i + 1], axes=self._axes, to_axes=axes)
